@@ -88,6 +88,8 @@ class C18(Prop):
         is_method = kind.endswith("-method")
         # two instances of the class call the method concurrently (both coroutines are created before either starts)
         second_instance = bool(is_method and s.draw(2, "second-instance"))
+        # the second instance may be a shallow copy of the first one (copy.copy clones its __dict__) made after the method was used
+        second_is_copy = bool(second_instance and s.draw(2, "second-is-copy"))
         seen["receivers"] = {}
         uses_thread = kind.startswith("asynchronous")
         expect_state = {"inst": None}
@@ -257,9 +259,28 @@ class C18(Prop):
                 """cm doc"""
                 return x
 
+            @asynchronous
+            def am_nodoc(self, x):
+                return x
+
+            @cache
+            def cm_nodoc(self, x):
+                return x
+
+            @cache(limit=2)
+            async def acm_nodoc(self, x):
+                return x
+
+            @cache(limit=2)
+            async def acm(self, x):
+                """acm doc"""
+                return x
+
         host_obj = MetaHost()
         metas += [("asynchronous-bound-method", host_obj.am, MetaHost.__dict__["am"].__wrapped__),
                   ("cache-bound-method", host_obj.cm, MetaHost.__dict__["cm"].__wrapped__)]
+        metas += [(f"{'asynchronous' if n.startswith('am') else 'cache'}-bound-method-{n}", getattr(host_obj, n), MetaHost.__dict__[n].__wrapped__)
+                  for n in ("am_nodoc", "cm_nodoc", "acm_nodoc", "acm")]
         metas += [("cache-builtin", cache(len), len), ("retry-builtin", retry(len), len), ("traced-builtin", traced(len), len)]
         if not is_method:
             metas.append((kind, wrapped, original))
@@ -315,7 +336,12 @@ class C18(Prop):
                 if kind == "traced-sync":
                     r = wrapped(*call_args, **call_kwargs)
                 elif second_instance:
-                    other = Host()
+                    if second_is_copy:
+                        import copy
+                        other = copy.copy(first_host)
+                        sim.stats["second_instance_is_shallow_copy"] += 1
+                    else:
+                        other = Host()
                     other.label = "second"
                     # which receiver each call is expected to run on is noted on the instance just before the call is made
                     first_host.expected, other.expected = "first", "second"
